@@ -337,3 +337,19 @@ def parallel(fn, items, procs=None):
         return [fn(i) for i in items]
     with concurrent.futures.ProcessPoolExecutor(procs) as ex:
         return list(ex.map(fn, items, chunksize=max(1, len(items) // (procs * 4))))
+
+
+def san_signature(text):
+    """Stable signature of a sanitizer report: kind + innermost frames inside /repo/src."""
+    kind = "unknown"
+    m = re.search(r"ERROR: AddressSanitizer: (\S+)", text)
+    if m:
+        kind = "asan-" + m.group(1)
+    else:
+        m = re.search(r"runtime error: ([a-z -]+)", text)
+        if m:
+            kind = "ubsan-" + m.group(1).strip().replace(" ", "-")[:40]
+    frames = re.findall(r"(?:in |/)(\w+) /[^\s]*/src/(\w+\.c):\d+", text)
+    m2 = re.search(r"(\w+\.c):(\d+):\d+: runtime error", text)
+    loc = ("%s" % m2.group(1)) if m2 else ("/".join("%s@%s" % f for f in frames[:2]) if frames else "?")
+    return "%s:%s" % (kind, loc)
